@@ -828,6 +828,9 @@ def load_corpus(prop):
     return [l.rstrip("\n") for l in open(p) if l.strip() and not l.startswith("#")]
 
 
+STALE_KNOWN = []     # filled by known_findings(): listed entries whose witness answers differently now (reported as diffs)
+
+
 def known_findings(prop, vlib, impl):
     known_lines = []
     kn = [k for k in vlib.load_known(prop) if k.get("status") == "known"]
@@ -836,4 +839,7 @@ def known_findings(prop, vlib, impl):
         for k, o in zip(kn, outs):
             if o == k["implementation"]:
                 known_lines.append("%s: %s [case: %s -> %s]" % (k["id"], k["what"], k["case"], o))
+            else:
+                STALE_KNOWN.append(dict(driver="arch", case=k["case"], implementation=o, model=k["implementation"], judge="KNOWN-FINDING-CHANGED",
+                                        why="listed known finding %s no longer reproduces as recorded" % k["id"]))
     return known_lines, set(k["case"] for k in kn)
